@@ -10,6 +10,7 @@ import (
 	"io"
 	"sort"
 
+	"github.com/free5gc/ike/internal/verifhook"
 	"github.com/pkg/errors"
 )
 
@@ -215,6 +216,7 @@ func (eapAkaPrime *EapAkaPrime) Unmarshal(rawData []byte) error {
 	}
 
 	for {
+		verifhook.At("eap.akaprime.attribute", bufReader.Buffered())
 		attr := new(EapAkaPrimeAttr)
 		var attrType uint8
 
